@@ -34,7 +34,8 @@ ASSUMPTIONS = [
 BUDGET = {"quick": (6, 800), "thorough": (16, 6000)}
 
 OPS = ["Select", "Where", "SelectMany"]
-ARGS = ["x", "y", "e", "jet"]
+ARGS = ["x", "y", "e", "jet", "a", "d", "lam"]
+DSNAMES = ["ds", "ds", "d", "a", "b", "l", "m", "la", "data", "lambda_", "Select"]
 
 
 class _G:
@@ -65,7 +66,7 @@ class _G:
 @st.composite
 def _unit(draw):
     g = _G(draw)
-    pick = draw(st.integers(0, 39))
+    pick = draw(st.integers(0, 41))
     sup = True
     pre = ""
     label = ""
@@ -278,6 +279,13 @@ def _unit(draw):
         body = f"q = ds.{o1}(lambda {a}: {inner}).{o2}({g.lam(o2, a2)[0]})"
         sup = False
         label = "continuation-line-starts-with-nested-lambda"
+    elif pick in (40, 41):
+        o1 = g.op()
+        o2 = o1 if pick == 40 else draw(st.sampled_from([o for o in OPS if o != o1]))
+        a = draw(st.sampled_from(ARGS))
+        body = f"def both(p, q):\n    return q\nq = both(ds.{o1}({g.lam(o1, a)[0]}), ds.{o2}({g.lam(o2, a)[0]}))"
+        sup = pick == 41
+        label = "two-calls-as-arguments-of-one-call" + (":same-method-same-arg" if pick == 40 else ":different-method")
     elif pick == 36:
         o1, o2 = g.op(), g.op()
         a = draw(st.sampled_from(ARGS))
@@ -293,6 +301,15 @@ def _unit(draw):
     if wrap == 1 and "\nq = " not in body and not body.startswith(("def ", "class ", "from ")):
         body = "def outer(ds):\n" + "\n".join("    " + ln for ln in body.split("\n")) + "\n    return None\nouter(ds)"
         label += "+in-def"
+    # the variable holding the dataset: any identifier (including ones that look like pieces of the word 'lambda' or like an operator)
+    dsname = draw(st.sampled_from(DSNAMES))
+    if dsname != "ds":
+        import re
+
+        if not re.search(rf"\b{dsname}\b", body) and "def outer(ds)" not in body:
+            body = re.sub(r"\bds\b", dsname, body)
+            pre = f"{dsname} = ds\n" + pre
+            label += "+dataset-variable-name"
     pad = "\n" * draw(st.integers(0, 3))
     return {"text": pad + pre + body + "\n", "supported": sup, "layout": label}
 
